@@ -601,6 +601,8 @@ func init() {
 			{Scenario: "panel.staleauth", Params: vx.P("change", "expire"), Bound: 2, BudgetS: 100, Weight: 4},
 			{Scenario: "panel.staleauth", Params: vx.P("change", "delete"), Bound: 2, BudgetS: 100, Weight: 4},
 			{Scenario: "auth.second", Params: vx.P("transport", "cdn"), Weight: 3},
+			// a State built by InitState: which UIDs and proxy methods each configuration admits
+			{Scenario: "auth.initstate", Weight: 2},
 			// forgeries that need no key: small-order ephemeral points sealed under the secret they force
 			{Scenario: "auth.smallorder", Params: vx.P("transport", "direct", "browser", "chrome"), Weight: 1},
 			{Scenario: "auth.smallorder", Params: vx.P("transport", "direct", "browser", "firefox"), Weight: 1},
